@@ -103,6 +103,10 @@ trait FbDyn {
     /// pixel map left by drawing `as_image()` at (-2,-1) on a BOUNDED native-fill target with box (0,0) W x H: the
     /// image sticks out over the left and top edge of the target
     fn image_map_cut(&self) -> PMap;
+    /// pixel maps left by drawing `as_image()` at the origin through the LIBRARY's `clipped(&area)` adapter on an unbounded
+    /// native-fill target, for clip areas that cut 0..3 rows at the top and 0..2 columns at the left (the adapter skips the
+    /// cut colours of the image's stream with `nth`: round-5 seed C10-r5-1)
+    fn image_maps_clipped(&self) -> Vec<(Rectangle, PMap)>;
     /// `as_image()` equals the `ImageRaw` of the same colour type and order over `data()[0..BUFFER_SIZE]`
     fn image_is_raw_over_prefix(&self, buffer_size: usize) -> bool;
     fn dims(&self) -> (u32, u32);
@@ -155,6 +159,18 @@ macro_rules! fb_body {
             let raw = self.as_image();
             Image::new(&raw, Point::new(-2, -1)).draw(&mut r).unwrap();
             r.rec.map
+        }
+        fn image_maps_clipped(&self) -> Vec<(Rectangle, PMap)> {
+            let raw = self.as_image();
+            let size = self.size();
+            let mut out = Vec::new();
+            for (cx, cy, dw, dh) in [(0i32, 2i32, 0u32, 0u32), (1, 2, 0, 1), (2, 3, 1, 0), (0, 3, 2, 0), (1, 0, 1, 1), (1, 1, 0, 0)] {
+                let area = Rectangle::new(Point::new(cx, cy), Size::new(size.width.saturating_sub(cx as u32 + dw), size.height.saturating_sub(cy as u32 + dh)));
+                let mut r = R2::<C>::unbounded();
+                Image::new(&raw, Point::zero()).draw(&mut r.clipped(&area)).unwrap();
+                out.push((area, r.rec.map));
+            }
+            out
         }
         fn image_is_raw_over_prefix(&self, buffer_size: usize) -> bool {
             let size = self.size();
@@ -833,6 +849,14 @@ impl Module for M {
             ctx.count("as-image:drawn-cut-by-the-target");
         }
         ctx.expect(cut == want_cut, "as-image-draw-cut-by-target", || format!("{} drawn {} want {}", op, fmt_map(&cut), fmt_map(&want_cut)));
+        // ... and through the library's clipping adapter: the content inside the clip area, nothing else
+        for (area, got) in fb.image_maps_clipped() {
+            let want_c: PMap = want_img.iter().filter(|((y, x), _)| area.contains(Point::new(*x, *y))).map(|(k, v)| (*k, *v)).collect();
+            if !want_c.is_empty() {
+                ctx.count("as-image:drawn-through-clipped-adapter");
+            }
+            ctx.expect(got == want_c, "as-image-draw-through-clipped-adapter", || format!("{} clip {} drawn {} want {}", op, fmt_rect(&area), fmt_map(&got), fmt_map(&want_c)));
+        }
 
         let mut grid = Vec::new();
         for y in -1..=hi {
